@@ -10,6 +10,9 @@ A *case* is plain JSON:
           'cmp': '==', 'val': scalar, 'vm': 'c'|'p', 'swap': bool,   (cmp, lencmp)
           'key': scalar, 'km': 'c'|'p',                               (in)
           'neg': bool}}                                               (in -> not in, truth -> not, isnone -> is not)
+   or 'op': {'t': 'multi', 'shape': 'and'|'or'|'tuple', 'parts': [op, op(, op)]}   # several paths in ONE query:
+          # conjunction / disjunction of conditions, or a tuple projection; a path element may carry 'v': n --
+          # elements with the same 'v' (and mode 'p') are the SAME query variable (one Python name, one value)
 
   {'kind': 'array', 'mode': ..., 'form': ..., 'rows': [{'ia': [...], 'sa': [...], 'fa': [...], 'ra': [...], 'n': i, 'm': i}],
    'op': {'t': 'index'|'indexcmp'|'slice'|'contains'|'subset'|'len'|'lencmp'|'truth', 'attr': 'ia'|'sa'|'fa'|'ra',
@@ -79,10 +82,32 @@ def path_keys(op):
     return [el['k'] for el in op.get('path', ())]
 
 
+def op_parts(op):
+    return op['parts'] if op['t'] == 'multi' else [op]
+
+
+def matches(got, exp):
+    if exp is SKIP:
+        return True
+    if isinstance(exp, tuple):        # tuple projection: element-wise, unspecified elements ignored
+        return isinstance(got, tuple) and len(got) == len(exp) and all(e is SKIP or strict_eq(g, e) for g, e in zip(got, exp))
+    return strict_eq(got, exp)
+
+
 def json_expected(op, doc):
     """Expected outcome for one row.
     projections ('proj', 'len'): the value, or SKIP;   conditions: True (row selected) / False / SKIP."""
     t = op['t']
+    if t == 'multi':
+        exps = [json_expected(p, doc) for p in op['parts']]
+        if op['shape'] == 'tuple':
+            return tuple(exps)
+        decisive = op['shape'] == 'or'         # a true operand decides `or`, a false one decides `and` (also in SQL's
+        if any(e is decisive for e in exps):   # three-valued logic), whatever an unspecified operand turns out to be
+            return decisive
+        if any(e is SKIP for e in exps):
+            return SKIP                        # otherwise an unspecified operand leaves the combination unasserted
+        return not decisive
     v = traverse(doc, path_keys(op))
     if t == 'proj':
         return None if v is MISSING else v
@@ -166,8 +191,13 @@ class Params(object):
     def __init__(self):
         self.values = {}
 
-    def add(self, value):
-        name = 'p%d' % len(self.values)
+    def add(self, value, var=None):
+        if var is not None:                    # a shared query variable: same name wherever it is used
+            name = 'v%d' % var
+            if name in self.values and not strict_eq(self.values[name], value):
+                raise ValueError('variable %s used with two values' % name)
+        else:
+            name = 'p%d' % len(self.values)
         self.values[name] = value
         return name
 
@@ -176,34 +206,51 @@ def _lit(v):
     return repr(v)
 
 
-def _operand(v, mode, params):
-    return _lit(v) if mode == 'c' else params.add(v)
+def _operand(v, mode, params, var=None):
+    return _lit(v) if mode == 'c' else params.add(v, var)
 
 
-def json_query_src(case, params):
-    op = case['op']
-    e = 'x.' + case['attr']
+def json_part_src(attr, op, params):
+    """-> (expression text, 'proj'|'cond') for one path operation"""
+    e = 'x.' + attr
     for el in op.get('path', ()):
-        e += '[%s]' % _operand(el['k'], el['m'], params)
+        e += '[%s]' % _operand(el['k'], el['m'], params, el.get('v'))
     t = op['t']
     if t == 'proj':
-        return '((x.id, %s) for x in E)' % e, 'proj'
+        return e, 'proj'
     if t == 'len':
-        return '((x.id, len(%s)) for x in E)' % e, 'proj'
+        return 'len(%s)' % e, 'proj'
     if t in ('cmp', 'lencmp'):
         left = e if t == 'cmp' else 'len(%s)' % e
         c = _operand(op['val'], op.get('vm', 'c'), params)
         if op.get('swap'):
-            return '(x.id for x in E if %s %s %s)' % (c, op['cmp'], left), 'cond'
-        return '(x.id for x in E if %s %s %s)' % (left, op['cmp'], c), 'cond'
+            return '%s %s %s' % (c, op['cmp'], left), 'cond'
+        return '%s %s %s' % (left, op['cmp'], c), 'cond'
     if t == 'truth':
-        return '(x.id for x in E if %s%s)' % ('not ' if op.get('neg') else '', e), 'cond'
+        return '%s%s' % ('not ' if op.get('neg') else '', e), 'cond'
     if t == 'isnone':
-        return '(x.id for x in E if %s is %sNone)' % (e, 'not ' if op.get('neg') else ''), 'cond'
+        return '%s is %sNone' % (e, 'not ' if op.get('neg') else ''), 'cond'
     if t == 'in':
         k = _operand(op['key'], op.get('km', 'c'), params)
-        return '(x.id for x in E if %s %sin %s)' % (k, 'not ' if op.get('neg') else '', e), 'cond'
+        return '%s %sin %s' % (k, 'not ' if op.get('neg') else '', e), 'cond'
     raise ValueError(t)
+
+
+def json_query_src(case, params):
+    op = case['op']
+    if op['t'] == 'multi':
+        parts = [json_part_src(case['attr'], p, params) for p in op['parts']]
+        want = 'proj' if op['shape'] == 'tuple' else 'cond'
+        if any(kind != want for e, kind in parts):
+            raise ValueError('multi/%s needs %s parts' % (op['shape'], want))
+        if want == 'proj':
+            return '((x.id, %s) for x in E)' % ', '.join(e for e, kind in parts), 'proj'
+        joiner = ' and ' if op['shape'] == 'and' else ' or '
+        return '(x.id for x in E if %s)' % joiner.join('(%s)' % e for e, kind in parts), 'cond'
+    e, kind = json_part_src(case['attr'], op, params)
+    if kind == 'proj':
+        return '((x.id, %s) for x in E)' % e, 'proj'
+    return '(x.id for x in E if %s)' % e, 'cond'
 
 
 def _bound_src(spec, params):
@@ -331,16 +378,17 @@ def evaluate(case):
         if shape == 'proj':
             got = {}
             dup = False
-            for rid, val in res:
+            tup = kind == 'json' and case['op']['t'] == 'multi'
+            for row in res:
+                rid = row[0]
                 dup = dup or rid in got
-                got[rid] = val
+                got[rid] = tuple(row[1:]) if tup else row[1]
             if dup or len(got) != len(expected):
                 return src, params.values, ('error', 'projection returned ids %r for %d stored rows'
                                             % (sorted(r[0] for r in res), len(expected)))
             for i, exp in enumerate(expected):
                 g = got[i + 1]
-                ok = exp is SKIP or strict_eq(g, exp)
-                out.append((i, g, exp, ok))
+                out.append((i, g, exp, matches(g, exp)))
         else:
             ids = list(res)
             if len(set(ids)) != len(ids) or not set(ids) <= set(range(1, len(expected) + 1)):
